@@ -101,7 +101,7 @@ func (outcome AutomationOutcome) Encode() ([]byte, error) {
 // of bytes. Possible errors come from the encoding/json package
 func DecodeAutomationOutcome(data []byte, utg types.UpkeepTypeGetter, wg types.WorkIDGenerator) (AutomationOutcome, error) {
 	ao := AutomationOutcome{}
-	err := json.Unmarshal(data, &ao)
+	err := unmarshalUntrusted(data, &ao)
 	if err != nil {
 		return AutomationOutcome{}, err
 	}
